@@ -191,9 +191,9 @@ func (m *recMetrics) MessageRejected(reason string, _ spectypes.BeaconRole, _ sp
 
 // ---- the system under test ---------------------------------------------------------------------------
 
-type side struct { // one network + validator pair per envelope mode
+type side struct { // one network configuration + validator per envelope mode
 	rec       *recorder
-	net       network.P2PNetwork
+	cfg       networkconfig.NetworkConfig
 	signer    *fixedSigner
 	ods       operatordatastore.OperatorDataStore
 	metrics   *recMetrics
@@ -215,13 +215,21 @@ func newSide(envelope bool) *side {
 	}
 	s := &side{rec: &recorder{}, signer: &fixedSigner{sig: make([]byte, 256)}}
 	s.ods = operatordatastore.New(&registrystorage.OperatorData{ID: 1})
-	s.net = p2pv1.VerifNewWithTopicsController(zap.NewNop(), &p2pv1.Config{
-		Ctx: context.Background(), Network: cfg, OperatorSigner: s.signer, OperatorDataStore: s.ods,
-		RequestTimeout: time.Second,
-	}, s.rec)
+	s.cfg = cfg
 	s.metrics = &recMetrics{MetricsReporter: metricsreporter.NewNop()}
 	s.validator = validation.NewMessageValidator(cfg, validation.WithMetrics(s.metrics))
 	return s
+}
+
+// freshNet builds a new p2pNetwork in front of the recorder.  One per key: the map of active
+// validators inside p2pNetwork (cornelk/hashmap v1.0.8) stops working after about a hundred
+// Subscribe/Unsubscribe cycles (GetOrInsert spins forever), which is not what this check is about.
+func (sd *side) freshNet() network.P2PNetwork {
+	sd.rec.calls = nil
+	return p2pv1.VerifNewWithTopicsController(zap.NewNop(), &p2pv1.Config{
+		Ctx: context.Background(), Network: sd.cfg, OperatorSigner: sd.signer, OperatorDataStore: sd.ods,
+		RequestTimeout: time.Second,
+	}, sd.rec)
 }
 
 func newSut(out *hx.Out) *sut {
@@ -279,10 +287,10 @@ func (s *sut) keyAny(pk []byte) {
 	defer s.guard("KEYANY")
 	subnet, ids, full, base := s.commonsPart(pk)
 	sd := s.sides[0]
-	sd.rec.calls = nil
-	_ = sd.net.Subscribe(pk)
-	_, _ = sd.net.Peers(pk)
-	_ = sd.net.Unsubscribe(zap.NewNop(), pk)
+	net := sd.freshNet()
+	_ = net.Subscribe(pk)
+	_, _ = net.Peers(pk)
+	_ = net.Unsubscribe(zap.NewNop(), pk)
 	sub, _ := sd.rec.take("sub")
 	uns, _ := sd.rec.take("unsub")
 	prs, _ := sd.rec.take("peers")
@@ -303,15 +311,15 @@ func (s *sut) key(pk []byte) {
 	subnet, ids, full, base := s.commonsPart(pk)
 	msg, mode, opid, sig := buildMsg(pk)
 	sd := s.sides[mode]
-	sd.rec.calls = nil
 	sd.signer.sig = sig
 	sd.ods.SetOperatorData(&registrystorage.OperatorData{ID: opid})
-	if err := sd.net.Broadcast(msg); err != nil {
+	net := sd.freshNet()
+	if err := net.Broadcast(msg); err != nil {
 		s.out.ViolF("Broadcast failed: %v", err)
 	}
-	_ = sd.net.Subscribe(pk)
-	_, _ = sd.net.Peers(pk)
-	_ = sd.net.Unsubscribe(zap.NewNop(), pk)
+	_ = net.Subscribe(pk)
+	_, _ = net.Peers(pk)
+	_ = net.Unsubscribe(zap.NewNop(), pk)
 	pub, pubCalls := sd.rec.take("pub")
 	sub, _ := sd.rec.take("sub")
 	uns, _ := sd.rec.take("unsub")
